@@ -75,13 +75,17 @@ def run(batch, n_runs):
     for o in C.ORDERS:
         C.reference(base, o)        # computed once in the parent, inherited by the forked workers
     seed = batch.seed
-    recs = core.parallel_runs(lambda i: one_run(i, seed, base), list(range(n_runs)))
+    stop = core.EarlyStop(lambda r: 'class' in r)
+    recs = core.parallel_runs(lambda i: one_run(i, seed, base), list(range(n_runs)), progress=stop)
     fired, states = {}, {}
     hashes, nontrivial = set(), set()
     lifetimes = crashes = 0
     samples, viol, digests = [], [], []
+    skipped = 0
     for i in sorted(recs):
         r = recs[i]
+        if r.get('_skipped'):
+            skipped += 1; continue
         if '_harness_error' in r:
             batch.harness_errors.append(r['_harness_error']); continue
         if r['status'] != 'ok':
@@ -123,7 +127,8 @@ def run(batch, n_runs):
         path = core.write_replay('C12', rec)
         batch.violations.append({'replay': path, 'class': cls})
     return {
-        'evaluations': n_runs,
+        'evaluations': n_runs - skipped,
+        'skipped_after_early_stop': skipped,
         'distinct_histories': len(hashes),
         'distinct_nontrivial': len(nontrivial),
         'process_lifetimes': lifetimes,
